@@ -199,6 +199,8 @@ func (s *KVSnapshot) SetSnapshotTS(ts uint64) {
 	s.mu.Unlock()
 	// And also remove the minCommitTS pushed information.
 	s.resolvedLocks = util.TSSet{}
+	// Locks known to be committed at or below the old timestamp may be committed above the new one.
+	s.committedLocks = util.TSSet{}
 }
 
 // IsInternal returns if the KvSnapshot is used by internal executions.
